@@ -602,7 +602,7 @@ class ErdosRenyiNet(DynamicNetwork):
         born_uids = (people.age > 0).uids
 
         # Sample integers
-        ints = self.randint.rvs(born_uids)
+        ints = self.randint.rvs(born_uids).astype(np.uint64) # combine_rands() expects unsigned integers: signed ones give numbers in [-0.5, 0.5) and an edge probability of 0.5 + p
 
         # All possible edges are upper triangle of complete matrix
         idx1, idx2 = np.triu_indices(n=len(born_uids), k=1)
